@@ -22,6 +22,7 @@
 import TypedpyModel.Lemmas.TrustedCtor
 import TypedpyModel.Lemmas.TrustedMap
 import TypedpyModel.Lemmas.TrustedExh
+import TypedpyModel.Lemmas.FastExh
 import TypedpyModel.Lemmas.Fast
 import TypedpyModel.Lemmas.FastMap
 import TypedpyModel.Lemmas.Mappers
@@ -903,6 +904,14 @@ theorem trusted_partition_exhaustive (opts : DeserOpts) (c : ClassOpts) (fields 
     · exact Or.inl ⟨h1, h2⟩
     · exact Or.inr (Or.inr h2)
   · exact Or.inr (Or.inl h1)
+
+/-- the same for fast serialization at declaration level: inside `fsafeCls` or a named tag of `fdefD`
+    (instance-level causes — undeclared attributes, compact conditions, mapper cascade — are named by
+    `fastDefects` on top of these) -/
+theorem fast_region_exhaustive (NF : List String) (c : ClassOpts) (fields : List (String × FieldDecl))
+    (ds : List (String × PyVal)) :
+    fsafeCls NF (.struct c fields ds) = true ∨ fdefD NF (.struct c fields ds) ≠ [] :=
+  c10_fast_region_exhaustive NF c fields ds
 
 example : tsafeCls cxOptImmSet = false ∧ declDefects cxOptImmSet = ["unnormalised:optional-immutable-set"] := by decide
 
